@@ -94,6 +94,8 @@ type Options struct {
 	ChainID  string
 	NAccts   int
 	Balances sdk.Coins // every account gets these at genesis
+	// InitialHeight of the chain (default 1): lets a workload start close to a height at which a periodic hook fires
+	InitialHeight int64
 }
 
 type Chain struct {
@@ -202,7 +204,7 @@ func New(o Options) *Chain {
 
 	state, err := json.Marshal(gs)
 	must(err)
-	c.App.InitChain(abci.RequestInitChain{ChainId: o.ChainID, Validators: []abci.ValidatorUpdate{}, ConsensusParams: consensusParams(), AppStateBytes: state, Time: GenesisTime, InitialHeight: 1})
+	c.App.InitChain(abci.RequestInitChain{ChainId: o.ChainID, Validators: []abci.ValidatorUpdate{}, ConsensusParams: consensusParams(), AppStateBytes: state, Time: GenesisTime, InitialHeight: initialHeight(o)})
 	c.App.Commit()
 	c.Header = tmproto.Header{ChainID: o.ChainID, Height: c.App.LastBlockHeight() + 1, AppHash: c.App.LastCommitID().Hash,
 		ValidatorsHash: c.ValSet.Hash(), NextValidatorsHash: c.ValSet.Hash(), Time: GenesisTime.Add(5 * time.Second),
@@ -227,6 +229,13 @@ func FromGenesis(chainID string, appState []byte, initialHeight int64, t time.Ti
 		ValidatorsHash: c.ValSet.Hash(), NextValidatorsHash: c.ValSet.Hash(), Time: t,
 		ProposerAddress: c.ValSet.Validators[0].Address}
 	return c
+}
+
+func initialHeight(o Options) int64 {
+	if o.InitialHeight > 1 {
+		return o.InitialHeight
+	}
+	return 1
 }
 
 func must(err error) {
